@@ -1034,7 +1034,7 @@ pub fn t_scope(a: &[i64]) -> Val {
 //  a_vft/b_vft: base has a vftable block with functions f0(&self, x: u32) -> u32 and f1(&mut self)
 //  d_block: 0 none; 1 repeats A's two functions (+ own `h`); 2 only own `h` (no base prefix)
 //  mutation (applied to D's copy of f0 when d_block == 1): 0 none, 1 rename, 2 parameter type, 3 return type,
-//      4 receiver mutability, 5 calling convention, 6 drop f1 (shorter table), 7 extra parameter, 8 swap f0/f1
+//      4 receiver mutability, 5 calling convention, 6 drop f1 (shorter table), 7 extra parameter, 8 swap f0/f1, 9 no own function (exact repeat)
 //  *_impl: the type has an impl block with `pub fn k(&self)`; (b uses the same name `k` when clash != 0, else `kb`)
 //  a_fn_vis: visibility of A's impl function (0 private)
 //  cc: calling convention attribute on A's f0 (0 absent, i+1 = CC_NAMES[i])
@@ -1093,6 +1093,9 @@ pub fn t_inherit(a: &[i64]) -> Val {
                 vec![d0]
             } else if mu == 8 {
                 vec![f1(), d0, h]
+            } else if mu == 9 {
+                // the block repeats the base's slots exactly and adds none
+                vec![d0, f1()]
             } else {
                 vec![d0, f1(), h]
             };
